@@ -266,7 +266,7 @@ func doCheck(prop, tier string, seed uint64, runsOverride, budgetOverride int) i
 	for _, s := range sigs {
 		f := mine[s]
 		if kf := openFinding(s); kf != nil {
-			known[kf.Sig] += f.count
+			known[kfKey(kf)] += f.count
 			continue
 		}
 		exit = 1
@@ -285,8 +285,12 @@ func doCheck(prop, tier string, seed uint64, runsOverride, budgetOverride int) i
 	}
 	sort.Strings(kfs)
 	for _, s := range kfs {
-		kf := openFinding(s)
-		fmt.Printf("KNOWN-FINDING: property=%s %s [%s] (met in %d runs)\n", prop, kf.What, kf.Sig, known[s])
+		for i := range findings {
+			if kfKey(&findings[i]) == s {
+				fmt.Printf("KNOWN-FINDING: property=%s %s [%s] (met in %d runs)\n", prop, findings[i].What, s, known[s])
+				break
+			}
+		}
 	}
 	writeEvidence(prop, tier, seed, pl, t, len(newV), known, others, buildSecs)
 	el := time.Since(startWall).Seconds()
@@ -294,6 +298,13 @@ func doCheck(prop, tier string, seed uint64, runsOverride, budgetOverride int) i
 		prop, tier, t.runs, t.okRuns, t.steps, t.decisions, float64(t.simMs)/1000, len(t.states), el, buildSecs, len(newV), len(known), len(others))
 	cleanup()
 	return exit
+}
+
+func kfKey(f *Finding) string {
+	if f.Sig != "" {
+		return f.Sig
+	}
+	return f.Property + ":*" + f.Suffix
 }
 
 func oneLine(s string, n int) string {
